@@ -681,6 +681,11 @@ func c03Fixed(rep *Report) {
 		c03AcceptCheck(rep, []byte("class A{async\n[m](){}}"), o, "Decl(class A Field(async) Method([m] Params() Stmt({ })))", "fixed", true)
 		c03AcceptCheck(rep, []byte("class A{async\nstatic m(){}}"), o, "Decl(class A Field(async) Method(static m Params() Stmt({ })))", "fixed", true)
 		c03AcceptCheck(rep, []byte("class A{get\nm(){}}"), o, "Decl(class A Method(get m Params() Stmt({ })))", "fixed", true)
+		// a private getter / setter pair, and the same private name in a nested class
+		c03AcceptCheck(rep, []byte("class A{get #a(){} set #a(v){}}"), o, "Decl(class A Method(get #a Params() Stmt({ })) Method(set #a Params(Binding(v)) Stmt({ })))", "fixed", true)
+		c03AcceptCheck(rep, []byte("class A{set #a(v){} static #b; get #a(){}}"), o, "Decl(class A Method(set #a Params(Binding(v)) Stmt({ })) Field(static #b) Method(get #a Params() Stmt({ })))", "fixed", true)
+		c03AcceptCheck(rep, []byte("class A{static get #a(){} static set #a(v){}}"), o, "Decl(class A Method(static get #a Params() Stmt({ })) Method(static set #a Params(Binding(v)) Stmt({ })))", "fixed", true)
+		c03AcceptCheck(rep, []byte("class A{#a; m(){ class B{#a} }}"), o, "Decl(class A Field(#a) Method(m Params() Stmt({ Decl(class B Field(#a)) })))", "fixed", true)
 		// Initializer[+In] / ComputedPropertyName[+In] inside a binding pattern, also in the head of a for statement (4c9b0c4)
 		c03AcceptCheck(rep, []byte("for(var[a=b in c]of d);"), o, "Stmt(for Decl(var Binding([ Binding(a = (b in c)) ])) of d Stmt({ }))", "fixed", true)
 		c03AcceptCheck(rep, []byte("for(let{[a in b]:c}=d;;);"), o, "Stmt(for Decl(let Binding({ [a in b]: Binding(c) } = d)) ; ; Stmt({ }))", "fixed", true)
@@ -703,7 +708,11 @@ func c03Fixed(rep *Report) {
 	rejectCheckFixed := func(kind, s string) { c03RejectCheck(rep, kind, []byte(s)) }
 	rejectCheckFixed("var-then-let-in-block", "{var a;let a}")
 	rejectCheckFixed("var-then-let-in-block", "{function a(){}let a}")
-	rejectCheckFixed("private-name-twice", "class A{#a;#a}")
+	// a private name declared twice: only a getter and a setter, both static or both not (accepted before 402589f)
+	for _, src := range []string{"class A{#a;#a}", "class A{get #a(){} get #a(){}}", "class A{static get #a(){} set #a(v){}}", "class A{#a(){} #a}",
+		"class A{get #a(){} set #a(v){} #a}", "class A{static #a; #a}", "class A{#a(){} static #a(){}}"} {
+		rejectCheckFixed("private-name-twice", src)
+	}
 	// the dropped same-line ';' (c03-tree:empty-statement-same-line) where exactly one statement is allowed
 	rejectCheckFixed("empty-statement-same-line", "if(a);;else b")
 	rejectCheckFixed("empty-statement-same-line", "do{};while(a)")
@@ -769,7 +778,7 @@ func c03RejectCheck(rep *Report, kind string, src []byte) {
 			rep.Violate("c03-panic:"+string(src), fmt.Sprintf("js.Parse panics on %q: %v", src, pan), map[string]interface{}{"src": string(src), "opts": o})
 		} else if err == nil {
 			key := "c03-reject:" + kind + ":" + string(src)
-			if kind == "private-name-twice" || kind == "var-then-let-in-block" || kind == "empty-statement-same-line" {
+			if kind == "var-then-let-in-block" || kind == "empty-statement-same-line" {
 				key = "c03-reject:" + kind // one stable key: every instance is the same defect
 			}
 			rep.Violate(key, fmt.Sprintf("ill-formed program accepted (%s): %q parsed as %s", kind, src, c03AstString(ast)), map[string]interface{}{"src": string(src), "opts": o})
